@@ -660,8 +660,4 @@ def specColl (now : Int) (a : ADb) (cmd : List Bytes) : Option Verdict :=
     else if n == b "srandmember" then some (specSPick now a cmd false)
     else none
 
-/-- the reference verdict for any specified command -/
-def specAll (now : Int) (a : ADb) (cmd : List Bytes) : Option Verdict :=
-  (specKv now a cmd).orElse fun _ => specColl now a cmd
-
 end Sugar.Spec
